@@ -1407,12 +1407,18 @@ class _tzparser(object):
                                          if x in "0123456789:,-+"]:
                     j += 1
                 if j != i:
+                    abbr = "".join(l[i:j])
+                    if not re.match(r'^[a-zA-Z]+$', abbr):
+                        # An abbreviation is made of letters: anything else
+                        # (spaces, '#', '@', '/', ...) is not a TZ string
+                        return None
+
                     if not res.stdabbr:
                         offattr = "stdoffset"
-                        res.stdabbr = "".join(l[i:j])
+                        res.stdabbr = abbr
                     else:
                         offattr = "dstoffset"
-                        res.dstabbr = "".join(l[i:j])
+                        res.dstabbr = abbr
 
                     for ii in range(j):
                         used_idxs.append(ii)
